@@ -71,7 +71,7 @@ func init() {
 		Rule: "operation (commit to existing/new branch, merge fast-forward / --no-ff / real 3-way, prune) through the in-process CLI on a generated pre-state; the global write log W (object store + ref store) of one fault-free run is recorded, then EVERY prefix k of W is materialised as a crash state, reopened, checked for I1-I4 and the operation re-run and compared (tables + history shape) with the uninterrupted run; error/disk-full modes inject a failure at every write position; non-trivial = every case (each enumerates all its crash points); distinct by plan hash",
 		Gen: func(seed uint64, tier string) any {
 			r := NewRand(seed)
-			p := C13Plan{Op: Pick(r, c13Ops), Mode: Pick(r, []string{"crash", "crash", "error", "diskfull"}), Workers: Pick(r, []int{1, 1, 4, 6}), SchedSeed: r.Uint64() | 1}
+			p := C13Plan{Op: Pick(r, c13Ops), Mode: Pick(r, []string{"crash", "crash", "error", "diskfull", "sqlerror"}), Workers: Pick(r, []int{1, 1, 4, 6}), SchedSeed: r.Uint64() | 1}
 			p.Base = SynthSpec{N: Pick(r, []int{1, 3, 8, 30, 255, 256, 300, 520}), NCols: r.Range(2, 4), Seed: r.Uint64()}
 			cols, pk, _ := p.Base.Build()
 			p.E1, p.E2 = genDisjointEdits(r.Sub("edits"), cols, pk, p.Base.N)
@@ -97,7 +97,7 @@ func execC13(t *testing.T, raw json.RawMessage, res *Result) {
 			okOp = true
 		}
 	}
-	if !okOp || (p.Mode != "crash" && p.Mode != "error" && p.Mode != "diskfull") {
+	if !okOp || (p.Mode != "crash" && p.Mode != "error" && p.Mode != "diskfull" && p.Mode != "sqlerror") {
 		res.Invalid("op/mode")
 		return
 	}
@@ -384,6 +384,55 @@ func execC13(t *testing.T, raw json.RawMessage, res *Result) {
 		}
 		res.stat("crash_states", float64(m+1))
 		res.fault("crash", m+1)
+	case "sqlerror":
+		// every SQL statement the operation issues against its ref store fails once
+		n.Restore(pre)
+		SQLFault.Arm(0)
+		r1 := runOp()
+		nStmt := SQLFault.Count()
+		if r1.Err != nil || nStmt > 5000 {
+			res.Invalid("statement count run: err=%v statements=%d", r1.Err, nStmt)
+			return
+		}
+		defer SQLFault.Arm(0)
+		for j := 1; j <= nStmt; j++ {
+			n.Restore(pre)
+			firedBefore := SQLFault.Fired
+			SQLFault.Arm(j)
+			rr := runOp()
+			SQLFault.Arm(0)
+			when := fmt.Sprintf("error at SQL statement %d/%d of the ref store", j, nStmt)
+			if rr.Out.PanicVal != nil || rr.Out.Deadlock {
+				res.Violate("error-panic", "%s: panicked/deadlocked: %v\n%s", when, rr.Out.PanicVal, trimStack(rr.Out.PanicStack))
+				return
+			}
+			if SQLFault.Fired == firedBefore {
+				continue
+			}
+			res.fault("sql_statement_error", 1)
+			now := n.Capture()
+			refs, err := RefsOf(now.RefDB)
+			if err != nil {
+				res.Violate("error:refdb-unreadable", "%s: %v", when, err)
+				return
+			}
+			if c, d := CheckRepoInvariants(now.Objs, refs); c != "" {
+				res.Violate("error:"+c, "%s (operation returned err=%v): %s", when, rr.Err, d)
+				return
+			}
+			if rr.Err == nil {
+				if d := shapesEqual(RefShapes(now.Objs, refs), finalShapes); d == "" {
+					continue
+				}
+				// a failed read may be taken for "nothing to do" (pull: "Already up to date"); the
+				// statement asks for consistency and repeatability, so the re-run decides
+				when += " (the command reported success short of the uninterrupted result)"
+				res.probe("sql_error_tolerated_short_of_result", 1)
+			}
+			if !checkRerun(when) {
+				return
+			}
+		}
 	case "error", "diskfull":
 		nObj, nRef := 0, 0
 		for _, r := range W {
